@@ -1514,10 +1514,7 @@ def explore(ctx, prop, nhist, nops):
                 batch.append((schema, run.ops, run.model_ops, run.model_checks, run))
                 run.keep = True
         finally:
-            if not getattr(run, 'keep', False): run.close()
-            else:
-                try: run.w.db.disconnect()
-                except Exception: pass
+            run.close()        # the database file goes now (the model comparison below uses what was recorded only): a killed run leaks one directory at most
     if batch and ctx.driver.ok:
         reqs = [{'op': 'run', 'ncols': [len(c) for c in run.w.cols], 'ops': mops} for _, _, mops, _, run in batch]
         if prop != 'C09': reqs = [dict(r, model='session') for r in reqs]       # Drive/C10 forwards these to Drive/C09
